@@ -13,7 +13,10 @@ RULE = ("cases = (items, size, hop, pad value, entry point) drawn by Hypothesis 
         "Streams, Stream subclasses with their own __iter__ (used once or again), thub and "
         "objects iterable through __getitem__ only; clause mutated adds a schedule of "
         "in-place changes to the unread part of the input list, applied before the first "
-        "block and after each complete block, against a step-by-step model; non-trivial = "
+        "block and after each complete block, against a step-by-step model; clause late_bound "
+        "gives the function blocks() an object whose iter() would fix its state (deque, dict / "
+        "OrderedDict and views, set, a Stream object) and changes it after the call and before "
+        "the first pull; non-trivial = "
         "at least 2 blocks or a padded tail (mutated: at least 2 blocks and an effective "
         "change); distinct = distinct case hash")
 ASSUMPTIONS = [
@@ -23,6 +26,7 @@ ASSUMPTIONS = [
   "the items of a Stream subclass instance are what iterating it yields (its __iter__), as for the library's own StreamTeeHub",
   "a list changed while its blocks are read is changed only where no produced block reaches yet (index >= k*hop+size after block k): there 'the items at the moment the block is produced' and lazy reading coincide; rewriting items that an earlier block already covers is not judged",
   "the end of a changing list is decided when a block cannot be completed; nothing is expected after the padded block",
+  "the function blocks() looks at its input when the first block is asked for (it is a generator): an input object changed between the call and the first pull is blocked as it is at the first pull; the items of a dict / set / view at that moment are what iterating it then yields",
 ]
 
 _items = st.one_of(
@@ -379,6 +383,341 @@ def run_mutated(case):
   return {"nontrivial": len(exp) >= 2 and bool(effects), "labels": labels}
 
 
+# ---- the input object is changed between the blocks(...) call and the first block ---------------
+# blocks() is a generator function: nothing of the input is looked at before the first block is
+# asked for.  Block k is the items k*hop .. k*hop+size-1 of the sequence "at the moment it is
+# produced", so whatever was done to the input object after the call and before the first pull is
+# part of the sequence the blocks describe.  For a list this is the `pre` change of clause mutated;
+# here the input is an object whose iter() would fix its state: a deque, a dict / OrderedDict and
+# their views, a set (their iterators refuse a container that changed since iter()), and a Stream
+# object given to the FUNCTION blocks(), whose in-place methods (limit / map / filter / skip /
+# append, and copy / peek which re-plumb the stream without removing anything) replace the
+# iterator that iter(stream) hands out.  (Stream.blocks, the method, is iter(self) at the call by
+# its definition - route stream_method_then_changed - and is not what is judged here.)
+
+_LATE_MAPS = {"tag": lambda v: ("m", v), "pair": lambda v: [v, v], "isnone": lambda v: v is None}
+_LATE_PREDS = {"notnone": lambda v: v is not None, "truthy": lambda v: bool(v),
+               "number": lambda v: isinstance(v, (int, float)) and not isinstance(v, bool),
+               "nothing": lambda v: False}
+
+_plain = st.one_of(st.integers(-5, 5), st.none(), st.booleans(),
+                   st.integers(-64, 64).map(lambda v: v / 8.))   # not iterable: Stream(*items) cycles
+
+_stream_op = st.sampled_from(["limit", "limit", "map", "filter", "skip", "append", "append2", "peek",
+                              "copy_read", "take"]).flatmap(lambda kind: {
+  "limit": st.tuples(st.just("limit"), st.integers(-1, 45)),
+  "map": st.tuples(st.just("map"), st.sampled_from(sorted(_LATE_MAPS))),
+  "filter": st.tuples(st.just("filter"), st.sampled_from(sorted(_LATE_PREDS))),
+  "skip": st.tuples(st.just("skip"), st.integers(0, 7)),
+  "append": st.tuples(st.just("append"), st.lists(_items, max_size=8)),
+  "append2": st.tuples(st.just("append2"), st.lists(_items, max_size=5), st.lists(_items, max_size=5)),
+  "peek": st.tuples(st.just("peek"), st.integers(0, 9)),
+  "copy_read": st.tuples(st.just("copy_read"), st.integers(0, 9)),
+  "take": st.tuples(st.just("take"), st.integers(0, 5)),
+}[kind])
+
+_deque_op = st.sampled_from(["extend", "extend", "extendleft", "pop", "popleft", "rotate", "clear",
+                             "set", "insert", "reverse"]).flatmap(lambda kind: {
+  "extend": st.tuples(st.just("extend"), st.lists(_items, min_size=1, max_size=10)),
+  "extendleft": st.tuples(st.just("extendleft"), st.lists(_items, min_size=1, max_size=6)),
+  "pop": st.tuples(st.just("pop"), st.integers(1, 5)),
+  "popleft": st.tuples(st.just("popleft"), st.integers(1, 5)),
+  "rotate": st.tuples(st.just("rotate"), st.integers(-4, 4)),
+  "clear": st.just(("clear",)),
+  "set": st.tuples(st.just("set"), st.integers(0, 30), _items),
+  "insert": st.tuples(st.just("insert"), st.integers(0, 30), _items),
+  "reverse": st.just(("reverse",)),
+}[kind])
+
+_map_op = st.sampled_from(["add", "add", "del", "del", "clear", "setvalue", "swap", "to_end"]).flatmap(
+  lambda kind: {
+    "add": st.tuples(st.just("add"), st.lists(_items, min_size=1, max_size=8)),
+    "del": st.tuples(st.just("del"), st.lists(st.integers(0, 30), min_size=1, max_size=4)),
+    "clear": st.just(("clear",)),
+    "setvalue": st.tuples(st.just("setvalue"), st.integers(0, 30), _items),
+    "swap": st.tuples(st.just("swap"), st.integers(0, 30), _items),    # one key out, one in
+    "to_end": st.tuples(st.just("to_end"), st.integers(0, 30)),
+  }[kind])
+
+_set_op = st.sampled_from(["add", "add", "discard", "clear", "swap"]).flatmap(lambda kind: {
+  "add": st.tuples(st.just("add"), st.lists(_items, min_size=1, max_size=8)),
+  "discard": st.tuples(st.just("discard"), st.lists(st.integers(0, 30), min_size=1, max_size=4)),
+  "clear": st.just(("clear",)),
+  "swap": st.tuples(st.just("swap"), st.integers(0, 30), _items),
+}[kind])
+
+_LATE_STREAMS = ("stream_list", "stream_iter", "stream_chain", "stream_tagged", "stream_cycle")
+_LATE_MAPPINGS = ("dict", "odict", "dict_keys", "dict_values", "dict_items", "odict_values")
+_LATE_KINDS = _LATE_STREAMS + ("stream_list", "stream_cycle", "deque", "deque", "deque_maxlen",
+                               "set") + _LATE_MAPPINGS
+
+
+def strat_late(tier):
+  maxlen = 30 if tier == "quick" else 120
+  def sizehop(regime):
+    if regime == "none":
+      return st.tuples(st.integers(1, 6), st.none())
+    if regime == "eq":
+      return st.integers(1, 6).map(lambda s: (s, s))
+    if regime == "lt":
+      return st.integers(2, 6).flatmap(lambda s: st.tuples(st.just(s), st.integers(1, s - 1)))
+    return st.integers(1, 6).flatmap(lambda s: st.tuples(st.just(s), st.integers(s + 1, s + 5)))
+  def ops_for(kind):
+    if kind == "stream_cycle":      # endless until limited: the first change is the limit
+      return st.tuples(st.tuples(st.just("limit"), st.integers(0, 45)),
+                       st.lists(_stream_op, max_size=3)).map(lambda t: [t[0]] + t[1])
+    if kind in _LATE_STREAMS:
+      return st.lists(_stream_op, min_size=1, max_size=4)
+    if kind in ("deque", "deque_maxlen"):
+      return st.lists(_deque_op, min_size=1, max_size=3)
+    if kind == "set":
+      return st.lists(_set_op, min_size=1, max_size=3)
+    return st.lists(_map_op, min_size=1, max_size=3)
+  def xs_for(kind):
+    if kind == "stream_cycle":
+      return st.lists(_plain, min_size=1, max_size=6)
+    return st.one_of(st.lists(_items, max_size=maxlen),
+                     st.integers(0, maxlen).map(lambda n: list(range(n))))
+  return st.sampled_from(_LATE_KINDS).flatmap(lambda kind: st.fixed_dictionaries(dict(
+    kind=st.just(kind),
+    xs=xs_for(kind),
+    sh=st.sampled_from(["lt", "lt", "gt", "gt", "eq", "none"]).flatmap(sizehop),
+    pad=_pad,
+    ops=ops_for(kind),
+    style=st.sampled_from(["kw", "kw", "positional", "seq_kw"]),
+    sets=st.lists(st.tuples(st.integers(0, 8), _items), max_size=4),
+  )))
+
+
+def _late_source(kind, xs):
+  """-> (object given to blocks(), object the changes are made on, items as of the call or None)"""
+  from collections import deque, OrderedDict
+  if kind == "stream_list":
+    s = Stream(list(xs))
+    return s, s, list(xs)
+  if kind == "stream_iter":
+    s = Stream(iter(xs))
+    return s, s, list(xs)
+  if kind == "stream_chain":        # several iterables are chained
+    cut = len(xs) // 3
+    s = Stream(list(xs[:cut]), tuple(xs[cut:]))
+    return s, s, list(xs)
+  if kind == "stream_tagged":
+    s = _Tagged(xs)
+    return s, s, [("it", v) for v in xs]
+  if kind == "stream_cycle":        # Stream(a, b, ...) of non-iterables repeats them for ever
+    s = Stream(*xs)
+    return s, s, None
+  if kind == "deque":
+    d = deque(xs)
+    return d, d, list(xs)
+  if kind == "deque_maxlen":
+    d = deque(xs, maxlen=max(len(xs), 1) + 3)
+    return d, d, list(xs)
+  if kind == "set":
+    d = set(xs)
+    return d, d, list(d)
+  d = (OrderedDict if kind.startswith("odict") else dict)((x, ("v", i)) for i, x in enumerate(xs))
+  src = {"dict": d, "odict": d, "dict_keys": d.keys(), "dict_values": d.values(), "odict_values": d.values(),
+         "dict_items": d.items()}[kind]
+  return src, d, list(src)
+
+
+def _late_stream_change(s, items, op, kind):
+  """Applies one in-place change to the Stream and returns the items it holds afterwards (items is
+  None while the stream is endless)."""
+  name = op[0]
+  if name == "limit":
+    n = max(op[1], 0)
+    s.limit(op[1])
+    if items is None:
+      raise AssertionError("endless streams are limited by run_late itself")
+    return items[:n]
+  if name == "map":
+    s.map(_LATE_MAPS[op[1]])
+    if kind == "stream_tagged":       # the subclass tags what its data yields
+      return [("it", _LATE_MAPS[op[1]](v[1])) for v in items]
+    return [_LATE_MAPS[op[1]](v) for v in items]
+  if name == "filter":
+    s.filter(_LATE_PREDS[op[1]])
+    if kind == "stream_tagged":
+      return [v for v in items if _LATE_PREDS[op[1]](v[1])]
+    return [v for v in items if _LATE_PREDS[op[1]](v)]
+  if name == "skip":
+    s.skip(op[1])
+    return items[op[1]:]
+  if name == "append":
+    s.append(list(op[1]))
+    more = list(op[1])
+  elif name == "append2":
+    s.append(list(op[1]), iter(op[2]))
+    more = list(op[1]) + list(op[2])
+  elif name == "peek":                # looks at the next items without removing them
+    seen = s.peek(op[1])
+    if kind != "stream_tagged" and not same(seen, items[:op[1]]):
+      raise Violation("peek(%d) -> %r, the stream holds %r" % (op[1], seen, items))
+    return items
+  elif name == "copy_read":           # a copy is made and read from; the stream keeps its items
+    twin = s.copy()
+    seen = twin.take(op[1])
+    if kind != "stream_tagged" and not same(seen, items[:op[1]]):
+      raise Violation("copy().take(%d) -> %r, the stream holds %r" % (op[1], seen, items))
+    return items
+  elif name == "take":                # removes the first items
+    s.take(op[1])
+    return items[op[1]:]
+  else:
+    raise AssertionError(op)
+  if kind == "stream_tagged":
+    more = [("it", v) for v in more]
+  return items + more
+
+
+def _late_container_change(d, op):
+  name = op[0]
+  if name == "extend":
+    d.extend(op[1])
+  elif name == "extendleft":
+    d.extendleft(op[1])
+  elif name in ("pop", "popleft"):
+    for _ in range(min(op[1], len(d))):
+      getattr(d, name)()
+  elif name == "rotate":
+    d.rotate(op[1])
+  elif name == "clear":
+    d.clear()
+  elif name == "reverse":
+    d.reverse()
+  elif name == "insert":                       # deque
+    if d.maxlen is None or len(d) < d.maxlen:
+      d.insert(op[1] % (len(d) + 1), op[2])
+  elif name == "set":                          # deque
+    if len(d):
+      d[op[1] % len(d)] = op[2]
+  elif isinstance(d, (set, frozenset)):
+    members = list(d)
+    if name == "add":
+      d.update(op[1])
+    elif name == "discard":
+      for i in op[1]:
+        if members:
+          d.discard(members[i % len(members)])
+    elif name == "swap":
+      if members:
+        d.discard(members[op[1] % len(members)])
+      d.add(op[2])
+    else:
+      raise AssertionError(op)
+  else:                                        # dict / OrderedDict
+    keys = list(d)
+    if name == "add":
+      for j, key in enumerate(op[1]):
+        d[key] = ("new", j)
+    elif name == "del":
+      for i in op[1]:
+        if keys:
+          d.pop(keys[i % len(keys)], None)
+    elif name == "setvalue":
+      if keys:
+        d[keys[op[1] % len(keys)]] = ("set", op[2])
+    elif name == "swap":
+      if keys:
+        del d[keys[op[1] % len(keys)]]
+      d[op[2]] = ("swapped",)
+    elif name == "to_end":                     # same keys, other order
+      if keys:
+        key = keys[op[1] % len(keys)]
+        d[key] = d.pop(key)
+    else:
+      raise AssertionError(op)
+
+
+def run_late(case):
+  kind, xs, (size, hop), pad = case["kind"], case["xs"], case["sh"], case["pad"]
+  ops = [tuple(op) for op in case["ops"]]
+  kw = {} if hop is None else {"hop": hop}
+  hop = size if hop is None else hop
+  src, target, at_call = _late_source(kind, xs)
+  if case["style"] == "positional":
+    it = blocks(src, size, hop, pad)
+  elif case["style"] == "seq_kw":
+    it = blocks(seq=src, size=size, padval=pad, **kw)
+  else:
+    it = blocks(src, size=size, padval=pad, **kw)
+  # --- between the call and the first pull
+  if kind in _LATE_STREAMS:
+    items = at_call
+    for j, op in enumerate(ops):
+      if items is None:                        # endless: the first change is the limit
+        if j or op[0] != "limit":
+          raise AssertionError(ops)
+        target.limit(op[1])
+        items = [xs[i % len(xs)] for i in range(max(op[1], 0))]
+      else:
+        items = _late_stream_change(target, items, op, kind)
+    changed = at_call is None or not same(items, at_call)
+    effect = "Stream changed in place before the first block"
+    if not changed and any(op[0] in ("peek", "copy_read") and op[1] > 0 for op in ops):
+      changed = True                           # same items, handed out by another iterator now
+      effect = "Stream copied / peeked before the first block, items kept"
+  else:
+    for op in ops:
+      _late_container_change(target, op)
+    items = list(src)                          # what iterating the given object yields now
+    changed = not same(items, at_call)
+    effect = ("container grew before the first block" if len(items) > len(at_call) else
+              "container shrank before the first block" if len(items) < len(at_call) else
+              "container changed, same length, before the first block")
+  exp = blocks_ref(items, size, hop, pad)
+  # --- item assignments at places no block has reached, between blocks (deques only: assigning
+  # an item is the one change a deque iterator lets through)
+  sets = [tuple(m) for m in case["sets"]] if kind in ("deque", "deque_maxlen") else []
+  model = list(items)
+  got = []
+  set_done = False
+  try:
+    for k, blk in enumerate(it):
+      got.append(list(blk))
+      if len(got) > len(exp) + 3:
+        raise Violation("blocks keep coming: %r, expected %r (size=%d hop=%d)" % (got, exp, size, hop))
+      if k < len(sets):
+        idx = k * hop + size + sets[k][0]
+        if idx < len(model):
+          target[idx] = model[idx] = sets[k][1]
+          set_done = True
+  except RuntimeError as exc:
+    raise Violation("%s changed by %r after blocks() was called and before the first block was asked "
+                    "for: %s: %s (blocks read so far: %r)" % (kind, ops, type(exc).__name__, exc, got))
+  exp = blocks_ref(model, size, hop, pad)
+  if len(got) != len(exp):
+    raise Violation("%s changed before the first block (%r): block count %d != %d (items at the call %r, "
+                    "at the first pull %r, size=%d hop=%d) got=%r exp=%r"
+                    % (kind, ops, len(got), len(exp), at_call, items, size, hop, got, exp))
+  for k, (g, e) in enumerate(zip(got, exp)):
+    if not same(g, e):
+      raise Violation("%s changed before the first block (%r): block %d is %r, expected %r (items at the "
+                      "call %r, at the first pull %r, size=%d hop=%d)"
+                      % (kind, ops, k, g, e, at_call, items, size, hop))
+  regime = "hop<size" if hop < size else ("hop=size" if hop == size else "hop>size")
+  labels = [regime, "kind:" + kind, "style:" + case["style"]]
+  labels += sorted(set("op:" + op[0] for op in ops))
+  if changed:
+    labels.append(effect)
+    labels.append("function form, input changed before the first block")
+    if kind in _LATE_STREAMS:
+      labels.append("Stream given to the function")
+    elif kind in _LATE_MAPPINGS:
+      labels.append("dict or dict view")
+    else:
+      labels.append("deque or set")
+  if set_done:
+    labels.append("deque item assigned between blocks")
+  padded = bool(exp) and len(model) < (len(exp) - 1) * hop + size
+  if padded:
+    labels.append("padded tail")
+  return {"nontrivial": changed and (len(exp) >= 2 or padded), "labels": labels}
+
+
 def strat_pad(tier):
   return st.fixed_dictionaries(dict(
     xs=st.lists(_items, max_size=12),
@@ -484,6 +823,15 @@ CLAUSES = [
          doc="a list that is extended / truncated / rewritten in its unread part while its blocks are "
              "being read (before the first block and between blocks): each block is the window of the "
              "list as it is when the block is produced"),
+  Clause("late_bound", strat_late, run_late, quick=4000, thorough=80000,
+         floors={"function form, input changed before the first block": .25,
+                 "Stream given to the function": .08, "dict or dict view": .08, "deque or set": .06,
+                 "container grew before the first block": .06,
+                 "container shrank before the first block": .05},
+         doc="the function blocks() given an object that is changed after the call and before the first "
+             "block is asked for - a deque, dict / OrderedDict (and their views) or set that grows, shrinks "
+             "or is reordered, a Stream limited / mapped / filtered / skipped / appended / copied / peeked "
+             "in place: the blocks are those of the input as it is when they are produced"),
   Enumerated("grid", grid, run_blocks, shards={"quick": 4, "thorough": 16},
              doc="every (length, size, hop) in a small box"),
 ]
